@@ -1170,7 +1170,7 @@ def o7c(h):
                 order=('nlsat', 'core'), denoms=False, cap=60)
 
 
-@obligation(P, 'O7.eigen_sym33_on_families_nearly_isotropic', tiers=('thorough',), cap=600)
+@obligation(P, 'O7.eigen_sym33_on_families_nearly_isotropic', cap=600)
 def o7d(h):
     """as O7...shifted_shear (xy) for the nearly isotropic members 0 < q <= 1e-9, where the isotropic fallback may or may not be taken"""
     _o7_meta(h)
